@@ -61,7 +61,10 @@ fn start(base: &Path, n: usize, cfg: &Cfg) -> Srv {
 
 fn client() -> UdpSocket {
     let c = UdpSocket::bind("127.0.0.1:0").unwrap();
-    c.set_read_timeout(Some(Duration::from_millis(400))).unwrap();
+    // replies normally arrive within a millisecond; the runner repeats a run that found something with a generous time-out
+    // (VERIF_NET_TIMEOUT_MS) so that a reply delayed by a loaded machine is never mistaken for a missing one
+    let ms = std::env::var("VERIF_NET_TIMEOUT_MS").ok().and_then(|v| v.parse().ok()).unwrap_or(400u64);
+    c.set_read_timeout(Some(Duration::from_millis(ms))).unwrap();
     c
 }
 
